@@ -1,2 +1,56 @@
-(* C11 - theorems follow in this commit series *)
-From TW Require Import Bytes.
+(* C11 - built-in functions meet their contracts.
+   Spec/BuiltinSpec.v states the contract of every built-in from the property text (over characters
+   and value lists); Model/Builtins.v mirrors evaluator/*_func.go and is tied to it by the
+   correspondence run (receivers x argument tuples x boundary counts).  Theorem: for EVERY function
+   name, receiver and argument list the model's answer meets the contract: the contract's value
+   where it gives one, an error (or "no such function") where it says error; SUnspec marks what the
+   contract leaves open (non-ASCII case mapping, shuffle of 2+ elements, float text outside the
+   printable class).  Purity is immediate in the model (values are immutable); for the code it is
+   observed by the harness (receiver and arguments re-read after the call).
+   Not proved here: UTF-8 validity of results (checked on every implementation output of the run). *)
+From Coq Require Import String.
+From TW Require Import Bytes Floats Values Builtins Expr BuiltinSpec Ast Eval BuiltinContracts.
+
+Theorem C11_builtins_meet_their_contracts fn recv args :
+  ints_in_range recv -> agrees (call_builtin fn recv args) (builtin_spec recv fn args).
+Proof. exact (builtins_meet_contracts fn recv args). Qed.
+Print Assumptions C11_builtins_meet_their_contracts.
+
+Theorem C11_string_functions fn s args : agrees (builtin_str fn s args) (spec_str fn s args).
+Proof. exact (str_agrees fn s args). Qed.
+Print Assumptions C11_string_functions.
+
+Theorem C11_array_functions fn l args : agrees (builtin_arr fn l args) (spec_arr fn l args).
+Proof. exact (arr_agrees fn l args). Qed.
+Print Assumptions C11_array_functions.
+
+Theorem C11_slice_is_a_segment l a b r :
+  spec_arr (bs "slice") l [VInt a; VInt b] = SVal (VArr r) -> exists pre post, l = pre ++ r ++ post.
+Proof. exact (slice_is_a_segment l a b r). Qed.
+Print Assumptions C11_slice_is_a_segment.
+
+Theorem C11_reverse_is_an_involution l r r2 :
+  spec_arr (bs "reverse") l [] = SVal (VArr r) -> spec_arr (bs "reverse") r [] = SVal (VArr r2) -> r2 = l.
+Proof. exact (reverse_is_an_involution l r r2). Qed.
+Print Assumptions C11_reverse_is_an_involution.
+
+Theorem C11_append_prepend_extend l args r :
+  (spec_arr (bs "append") l args = SVal (VArr r) -> r = l ++ args /\ args <> []) /\
+  (spec_arr (bs "prepend") l args = SVal (VArr r) -> r = args ++ l /\ args <> []).
+Proof. exact (conj (append_extends l args r) (prepend_extends l args r)). Qed.
+Print Assumptions C11_append_prepend_extend.
+
+Theorem C11_builtin_name_wins_over_custom cx f en ln recv fname args rv avs r :
+  eval_expr cx f en recv = Ok rv -> has_func_table rv = true ->
+  eval_exprs cx f en args = Ok avs ->
+  call_builtin fname rv avs = Some r ->
+  eval_expr cx (S f) en (ECall ln recv fname args) =
+  match r with BOk v => Ok v | BErr msg => Fail ln msg | BUnmodelled => Unmodelled end.
+Proof. exact (builtin_shadows_custom cx f en ln recv fname args rv avs r). Qed.
+Print Assumptions C11_builtin_name_wins_over_custom.
+
+(* non-vacuity *)
+Example C11_example :
+  call_builtin (bs "slice") (VArr [VInt 1; VInt 2; VInt 3; VInt 4]) [VInt 1; VInt 3] = Some (BOk (VArr [VInt 2; VInt 3])) /\
+  builtin_spec (VStr (bs "abc")) (bs "at") [VInt (-1)] = SVal (VStr (bs "c")).
+Proof. split; reflexivity. Qed.
